@@ -144,6 +144,7 @@ def run(ctx):
            "nested_addListener_from_callback_returned", "nested_start_from_callback_attempted",
            "nested_setReadMode_from_callback_threw_logic_error", "nested_connectSync_from_callback_threw_logic_error",
            "nested_receiveSync_from_callback_threw_logic_error",
+           "burst_connectSync_calls_entered_between_teardown_begin_and_stop_return", "burst_connectSync_shutting_down",
            "edge_callers_started", "post_unlock_holds", "edge_connectSync_returned_Timeout", "edge_connectSync_returned_ShuttingDown",
            "edge_receiveSync_returned_Timeout", "teardown_began_with_connectSync_caller_past_its_expiry_not_yet_returned",
            "teardown_began_with_receiveSync_caller_past_its_expiry_not_yet_returned"]
